@@ -290,11 +290,15 @@ def _fault_case(case, ctx):
         except sched.Deadlock as dl:
             return ("err", "BLOCKED-FOREVER", str(dl.info)[:200], None)
 
-    for inj, store, d, out in fault.faulted_runs(sc, store_factory=factory, runner=scheduled):
+    import itertools
+    runs = itertools.chain(fault.faulted_runs(sc, store_factory=factory, runner=scheduled),
+                           fault.faulted_runs(sc, modes=("full",), errnos=("ENOSPC",), store_factory=factory, runner=scheduled))
+    for inj, store, d, out in runs:
         ctx.count()
         n += 1
         desc = f"[fault] {case['kind']} with {inj.describe()} -> {'ok' if is_ok(out) else out[1]}"
-        sig = {"family": "fault", "call": case["kind"], "mode": "sticky" if inj.sticky else "one-off", "site": inj.fired.kind}
+        sig = {"family": "fault", "call": case["kind"], "mode": "disk-full" if inj.sticky == "full" else "sticky" if inj.sticky else "one-off",
+               "site": inj.fired.kind}
         if not is_ok(out) and out[1] == "BLOCKED-FOREVER":
             ctx.violation("faulted-call-never-returns", f"{desc}: the call blocks forever: {out[2]}", dict(sig, failure="deadlock"))
             continue
